@@ -31,7 +31,10 @@ Prelude ==
   "type U3 = { t: \"a\"; x: 1 } | { t: \"b\"; y: 2 };\n" \o
   "type Al1 = B;\ntype Al2 = Al1;\n" \o
   "type Fn = (x: number) => string;\n" \o
-  "class K { m = 1 }\n"
+  "class K { m = 1 }\n" \o
+  "const cyc1 = cyc2;\nconst cyc2 = cyc1;\n" \o
+  "type U4 = { t: \"a\" | \"b\"; x: 1 } | { t: \"b\"; y: 2 };\n" \o
+  "type U5 = { t: \"a\" | \"b\" } | { t: \"b\" | \"c\" };\n"
 
 Leaves == <<
   "string", "number", "boolean", "null", "undefined", "void", "any", "unknown", "never", "object", "symbol", "bigint",
@@ -39,6 +42,7 @@ Leaves == <<
   "A", "B", "N", "G<string>", "G<G<B>>", "G", "G2<string>", "G2<1, 2, 3>", "I", "J", "E", "E.P", "F", "F.Z", "R", "C1", "U3", "Al2", "Fn", "K",
   "Missing", "A.a", "typeof c", "typeof c.k", "typeof c.nested.deep", "typeof d", "typeof dc", "typeof Missing", "typeof E", "typeof K",
   "Date", "Map<string, A>", "Set<B>", "Map<string>", "Uint8Array", "Array<A>", "Array", "ReadonlyArray<B>", "Promise<A>", "Function", "Object", "String",
+  "typeof cyc1", "U4", "U5", "`line1\nline2${string}`", "`a\\b${number}`", "`q\"uote${string}`", "\"multi\\nline\"",
   "{}", "[]", "this", "unique symbol", "import(\"./m\").X", "import(\"./missing\").X"
 >>
 
